@@ -796,23 +796,31 @@ func Replay(script []int, o Options, body func()) *Sched {
 
 // Explore runs body under every script within the bound; check is called after each
 // execution (on the explorer goroutine, no thread running).
+//
+// Sharding: the root execution and its direct alternatives (depth 0 and 1 of the DFS
+// tree) are executed by every shard but counted and checked by shard 0 only; the
+// depth-2 subtrees are dealt round-robin in DFS order, which is deterministic.
 func Explore(o Options, body func(), check func(s *Sched)) Stats {
 	o.defaults()
 	var st Stats
-	stack := [][]int{nil}
-	first := true
+	type item struct {
+		prefix []int
+		depth  int
+	}
+	stack := []item{{nil, 0}}
+	deal := 0
 	for len(stack) > 0 {
 		if o.Stop != nil && o.Stop() || o.MaxExecs > 0 && st.Execs >= o.MaxExecs {
 			st.Stopped = true
 			break
 		}
-		prefix := stack[len(stack)-1]
+		it := stack[len(stack)-1]
 		stack = stack[:len(stack)-1]
+		prefix := it.prefix
 		s := runOnce(prefix, &o, body)
 		S = nil
-		isRoot := first
-		first = false
-		if !(isRoot && o.Shards > 1 && o.Shard != 0) {
+		sharedNode := o.Shards > 1 && it.depth < 2
+		if !(sharedNode && o.Shard != 0) {
 			st.Execs++
 			if s.HorizonHit {
 				st.HorizonHit++
@@ -828,32 +836,33 @@ func Explore(o Options, body func(), check func(s *Sched)) Stats {
 		if len(s.points) > st.MaxPoints {
 			st.MaxPoints = len(s.points)
 		}
-		var succ [][]int
+		var succ []item
 		cost := 0
 		for i, p := range s.points {
 			if i >= len(prefix) {
-				for alt := p.n - 1; alt >= 1; alt-- {
+				for alt := 1; alt < p.n; alt++ {
 					if cost+altCost(p, alt) > o.Bound {
 						continue
+					}
+					if o.Shards > 1 && it.depth == 1 {
+						mine := deal%o.Shards == o.Shard
+						deal++
+						if !mine {
+							continue
+						}
 					}
 					np := make([]int, i+1)
 					copy(np, s.choices[:i])
 					np[i] = alt
-					succ = append(succ, np)
+					succ = append(succ, item{np, it.depth + 1})
 				}
 			}
 			cost += altCost(p, s.choices[i])
 		}
-		if isRoot && o.Shards > 1 {
-			var mine [][]int
-			for k, x := range succ {
-				if k%o.Shards == o.Shard {
-					mine = append(mine, x)
-				}
-			}
-			succ = mine
+		// push in reverse so that the first alternative is explored first
+		for i := len(succ) - 1; i >= 0; i-- {
+			stack = append(stack, succ[i])
 		}
-		stack = append(stack, succ...)
 	}
 	return st
 }
